@@ -167,7 +167,7 @@ def run(ctx):
     recs = []
     nrand = 600 if quick else 15000
     for i in range(nrand):
-        nd = gc.gen_stream(rng, 60 if quick else 120)
+        nd = gc.gen_stream(rng, 60 if quick else 120, players=(rng.random() < 0.2))    # one in five: a merged routine stream (round 10, C09-P)
         notes = [gc.note_of(d) for d in nd]
         calls = []
         universe = sorted({x["t"] for x in nd}) or [49]
